@@ -197,6 +197,14 @@ func (t *logTap) ok() bool {
 	return t.usable
 }
 
+// loggedTimeouts is timeoutsOf after a barrier; -1 when the tap is not usable.
+func loggedTimeouts(id yorkietime.ActorID) int {
+	if tap == nil || !tap.ok() || !tap.barrier(waitCap) {
+		return -1
+	}
+	return tap.timeoutsOf(id)
+}
+
 // caseSeq numbers the evaluated cases of this process; it is part of the actor
 // ids so that a logged line belongs to exactly one instance of one case.
 var caseSeq atomic.Int64
@@ -416,7 +424,11 @@ func startLagWatch() *lagWatch {
 	return lw
 }
 
-func (lw *lagWatch) starved() bool { return time.Duration(lw.max.Load()) >= lagGuard }
+func (lw *lagWatch) starved() bool { return forceStarved || time.Duration(lw.max.Load()) >= lagGuard }
+
+// forceStarved (C17_FORCE_STARVED=1) makes every case count as starved: a
+// testing aid for the attribution path of an overloaded machine (refute).
+var forceStarved = os.Getenv("C17_FORCE_STARVED") != ""
 
 func (lw *lagWatch) close() {
 	close(lw.stop)
